@@ -377,6 +377,9 @@ func (sc *SecretManagerClient) tryAddFileWatcher(file string, resourceName strin
 	cacheLog.Infof("adding watcher for file certificate %s", file)
 	if err := sc.certWatcher.Add(file); err != nil {
 		cacheLog.Errorf("%v: error adding watcher for file %v, retrying watches: %v", resourceName, file, err)
+		// Forget the file again: otherwise the retry (and every later call) finds it "already watched" and
+		// returns without ever adding the watch, and changes of the file are never announced.
+		delete(sc.fileCerts, key)
 		numFileWatcherFailures.Increment()
 		return err
 	}
